@@ -221,6 +221,29 @@ m("c05_iso_global", "C05", r"C05\.ISO:writer:global_context", "render_component 
 m("c05_rec_include_reset", "C05", r"C05\.REC:render_include:child-depth", "render_include resets the component depth",
   "tera/src/vm/interpreter.rs", "            component_recursion_depth: self.component_recursion_depth,\n            include_depth: depth,",
   "            component_recursion_depth: 0,\n            include_depth: depth,")
+m("c05_bind_default_over_none", "C05", r"C05\.BIND:(default-only-when-missing|provided-value-bound|type-checked-before-bound)", "a provided none is replaced by the declared default",
+  "tera/src/parsing/ast.rs", """                Some(value) => {
+                    if !arg_def.type_matches(&value) {""", """                Some(value) => {
+                    let value = match &arg_def.default {
+                        Some(d) if value.is_none() => d.clone(),
+                        _ => value,
+                    };
+                    if !arg_def.type_matches(&value) {""")
+m("c05_bind_typecheck_skipped", "C05", r"C05\.BIND:type-checked-before-bound", "the type check is skipped for parameters that have a default",
+  "tera/src/parsing/ast.rs", "                    if !arg_def.type_matches(&value) {", "                    if arg_def.default.is_none() && !arg_def.type_matches(&value) {")
+m("c05_bind_unknown_ignored", "C05", r"C05\.BIND:(undeclared-to-rest-or-remembered|unknown-rejected)", "a single unknown argument is silently ignored",
+  "tera/src/parsing/ast.rs", "        if !unknown_keys.is_empty() {\n            let kwargs_list = self.kwargs_list();", "        if unknown_keys.len() > 1 {\n            let kwargs_list = self.kwargs_list();")
+m("c05_bind_rest_gets_declared", "C05", r"C05\.BIND:undeclared-to-rest-or-remembered", "declared arguments are also copied into the rest map",
+  "tera/src/parsing/ast.rs", """            if !self.kwargs.contains_key(key) {
+                if self.rest_param_name.is_some() {""", """            if !self.kwargs.contains_key(key) || self.rest_param_name.is_some() {
+                if self.rest_param_name.is_some() {""")
+m("c05_bind_missing_is_none", "C05", r"C05\.BIND:(default-only-when-missing|only-declared-rest-body)", "a missing untyped argument is bound to none instead of being an error",
+  "tera/src/parsing/ast.rs", """                    None => {
+                        let typ_msg = arg_def""", """                    None if arg_def.typ.is_none() => {
+                        context.insert_value(key.clone(), Value::none());
+                    }
+                    None => {
+                        let typ_msg = arg_def""")
 # ---------------------------------------------------------------- C06
 m("c06_depth_filter", "C06", r"R-DEPTH\.ast:.*parse_expr_bp", "drop the depth charge for binary/filter/test chains",
   "tera/src/parsing/parser.rs", "            self.next_or_error()?;\n            self.deepen_expression()?;\n", "            self.next_or_error()?;\n")
